@@ -40,6 +40,10 @@ def c02_programs(rng, n):
                      ("u3", [("remote_exec", "k", 3), ("close", "k")])],
                     {1: [("receive", "channel"), ("receive", "channel"), ("send", "channel", 201)],
                      2: [("receive", "channel"), ("receive", "channel"), ("receive", "channel"), ("send", "channel", 211)], 3: [("waitclose", "channel")]}))
+    # the receiving side iterates over the channel (both sides), a second thread receives explicitly from the same channel
+    out.append(prog([("u1", [("remote_exec", "c", 1), ("send", "c", 101), ("send", "c", 102), ("send", "c", 103), ("close", "c")]),
+                     ("u2", [("remote_exec", "d", 2), ("iterate", "d")]), ("u3", [("await", "d"), ("receive_all", "d")])],
+                    {1: [("iterate", "channel")], 2: [("send", "channel", 211), ("send", "channel", 212), ("send", "channel", 213)]}))
     # two receivers on one channel
     out.append(prog([("u1", [("remote_exec", "c", 1), ("receive_all", "c")]), ("u2", [("await", "c"), ("receive_all", "c")])],
                     {1: [("send", "channel", 201), ("send", "channel", 202), ("send", "channel", 203)]}))
@@ -123,6 +127,9 @@ def c03_programs(rng, n):
         out.append(prog([("u1", [("remote_exec", "c", 1), ("receive_all", "c")] + _after("c", 150)),
                          ("u2", [("await", "c"), ("receive_all", "c")] + _after("c", 151)),
                          ("u3", [("await", "c"), ("waitclose", "c")] + _after("c", 152))], {1: body}))
+    # iteration over a channel ends exactly at the close (after every item); with a remote error the loop raises it
+    out.append(prog([("u1", [("remote_exec", "c", 1), ("iterate", "c")] + _after("c", 150)), ("u2", [("remote_exec", "e", 2), ("iterate", "e"), ("waitclose", "e")])],
+                    {1: [("send", "channel", 201), ("send", "channel", 202)], 2: [("send", "channel", 211), ("raise",)]}))
     # a big item is on its way while another thread closes the same channel / another channel: every item sent before the close arrives
     out.append(prog([("u1", [("remote_exec", "c", 1), ("sendbig", "c", 101), ("sendbig", "c", 102), ("open_gate", "sent")]),
                      ("u2", [("remote_exec", "d", 2), ("send", "d", 111), ("close", "d")]),
